@@ -1,7 +1,6 @@
 package main
 
 import (
-	"fmt"
 	"reflect"
 	"strconv"
 	"strings"
@@ -37,9 +36,18 @@ func (o Obs) Primary() []string {
 
 var primaryNames = []string{"href", "protocol", "username", "password", "host", "hostname", "port", "pathname", "search", "hash"}
 
+// Key must not use fmt (or anything else that synchronises through sync.Pool): it runs on task
+// goroutines in schedsim, where an accidental pool hand-off would give the race detector a
+// happens-before edge that hides real races.
 func (o Obs) Key() string {
+	b := func(x bool) string {
+		if x {
+			return "T"
+		}
+		return "F"
+	}
 	return strings.Join(o.Primary(), "\x01") + "\x01" + o.HrefNF + "\x01" + o.Scheme + "\x01" + o.Query + "\x01" + o.Fragment +
-		fmt.Sprintf("\x01%v%v%v%v%d", o.V4, o.V6, o.Opaque, o.Special, o.DPort)
+		"\x01" + b(o.V4) + b(o.V6) + b(o.Opaque) + b(o.Special) + strconv.Itoa(o.DPort)
 }
 
 func diffPrimary(a, b []string) (string, string, string) {
